@@ -974,7 +974,16 @@ func (d *Data) handleDataRequest(ctx *datastore.VersionedCtx, w http.ResponseWri
 				server.BadRequest(w, r, "can only POST 'raw' not 'isotropic' images")
 				return
 			}
-			estsize := subvol.NumVoxels() * 8
+			// the size comes from the URL and sizes the decompression buffer: refuse what no stored volume could be
+			estsize := int64(8)
+			for dim := uint8(0); dim < 3; dim++ {
+				n := int64(subvol.Size().Value(dim))
+				if n <= 0 || estsize > server.MaxDataRequest/n {
+					server.BadRequest(w, r, "POSTed volume %s is empty or exceeds this DVID server's set limit (%d bytes)", subvol, server.MaxDataRequest)
+					return
+				}
+				estsize *= n
+			}
 			data, err := uncompressReaderData(compression, r.Body, estsize)
 			if err != nil {
 				server.BadRequest(w, r, err)
